@@ -25,6 +25,7 @@ type chartSpec struct {
 	Defaults map[string]any // content of the chart's own values.yaml
 	Enabled  bool           // as intended by the generator (model: user > root values.yaml > true)
 	Inst     map[string]any // intended final values of this chart (before source distribution)
+	CRDs     bool           // chart ships a crds/ directory with one CustomResourceDefinition
 }
 
 type pair struct {
@@ -737,6 +738,9 @@ func (p *pair) files() gen.Files {
 			}
 			f[dir+"values.schema.json"] = jsonText(s)
 		}
+		if c.CRDs {
+			f[dir+"crds/"+c.Name+".yaml"] = fmt.Sprintf(crdYAML, c.Name, c.Name, c.Name)
+		}
 		for _, ch := range c.Children {
 			emit(ch, dir+"charts/"+ch.Name+"/")
 		}
@@ -780,5 +784,36 @@ func baseFiles() gen.Files {
 		"Chart.yaml":        "apiVersion: v2\nname: rootc\nversion: 0.0.1\n",
 		"values.yaml":       "seed: 1\n",
 		"templates/cm.yaml": "apiVersion: v1\nkind: ConfigMap\nmetadata:\n  name: {{ .Release.Name }}-base\ndata:\n  seed: {{ .Values.seed | quote }}\n",
+	}
+}
+
+const crdYAML = `apiVersion: apiextensions.k8s.io/v1
+kind: CustomResourceDefinition
+metadata:
+  name: %ss.c14.example.com
+spec:
+  group: c14.example.com
+  names:
+    kind: %sKind
+    plural: %ss
+  scope: Namespaced
+  versions:
+  - name: v1
+    served: true
+    storage: true
+    schema:
+      openAPIV3Schema:
+        type: object
+        x-kubernetes-preserve-unknown-fields: true
+`
+
+// assignCRDs gives a share of the pairs crds/ directories (root and subcharts, enabled or not).
+// It draws from its own generator so that the rest of the pair does not depend on it.
+func (p *pair) assignCRDs(rng *rand.Rand) {
+	if !chance(rng, 35) {
+		return
+	}
+	for _, c := range p.Charts {
+		c.CRDs = chance(rng, 60)
 	}
 }
